@@ -1,0 +1,14 @@
+//go:build verif
+
+package types
+
+// VerifYield, when set (verification builds only), is called right after listeners have
+// been registered for an event: from that moment an event that another goroutine is
+// already delivering reaches them.  The verification harness uses it as a yield point.
+var VerifYield func(evt string)
+
+func verifYield(evt EventName) {
+	if f := VerifYield; f != nil {
+		f(string(evt))
+	}
+}
